@@ -762,6 +762,7 @@ func (c sumCase) Nontrivial() bool  { return len(c.Keys) > 1 }
 // histCase: Ops is a list of steps applied to one persistent tree, each followed by its effect:
 //
 //	edit:<p>  add:<p>  del:<p>      change / add / delete a source file of package p
+//	typeerr:<p>                      change a source file of p so that p has a type error of its own (it still loads)
 //	rmsum  corrupt                   delete / corrupt gengo.sum
 //	run  force  fail:<p>  sub:<p>    Execute with All / with All+Force / with a generator error in p / on entrypoint p only (no All)
 //	cancel:<p>                       Execute with All, the caller's context being cancelled while p is generated
@@ -848,6 +849,10 @@ func runHistoryHere(c *histCase) *histOut {
 		switch f[0] {
 		case "edit":
 			os.WriteFile(filepath.Join(pd, "edit.go"), []byte(fmt.Sprintf("package %s\n\nconst edited = %d\n", s.Pkgs[pi].Dir, counter)), 0o644)
+		case "typeerr":
+			// an edit that leaves the package with a type error of its own (an undefined name): it still loads, its
+			// declarations are still there, its directory has changed
+			os.WriteFile(filepath.Join(pd, "edit.go"), []byte(fmt.Sprintf("package %s\n\nconst edited = %d\n\nvar _ = notDeclaredAnywhere%d\n", s.Pkgs[pi].Dir, counter, counter)), 0o644)
 		case "link":
 			// a source file that is a symbolic link to a file outside the package directory; every `link` points it elsewhere
 			shared := filepath.Join(dir, "_shared")
@@ -1119,7 +1124,7 @@ func genHistory(r *Rng) *histCase {
 	n := 4 + r.Intn(7)
 	for i := 0; i < n; i++ {
 		p := r.Intn(k)
-		switch r.Intn(18) {
+		switch r.Intn(19) {
 		case 14, 15:
 			c.Ops = append(c.Ops, fmt.Sprintf("link:%d", p))
 		case 16:
@@ -1146,6 +1151,8 @@ func genHistory(r *Rng) *histCase {
 			c.Ops = append(c.Ops, fmt.Sprintf("delgen:%d", p))
 		case 17:
 			c.Ops = append(c.Ops, fmt.Sprintf("cancel:%d", p))
+		case 18:
+			c.Ops = append(c.Ops, fmt.Sprintf("typeerr:%d", p))
 		}
 	}
 	c.Ops = append(c.Ops, "run", "run", "run") // convergence tail
@@ -1275,7 +1282,7 @@ func init() {
 			Name: "history", Quick: 80, Thorough: 600, New: func() Case { return &histCase{} },
 			Gen:      func(r *Rng, i int) Case { return genHistory(r) },
 			BatchRun: histBatch, ShrinkBudget: 40, MaxShrinks: 4,
-			Rule: "histories of 4–10 steps over 2–3 packages from {edit, add, delete a file, create / retarget a symbolic link to a source file kept outside the package directory, edit the file behind the link, delete a generated file, delete / corrupt gengo.sum, run, run with Force, run failing in p, run on entrypoint p without All, run whose context the caller cancels while p is being generated} followed by three plain runs, on one persistent real module; oracle: ground truth from the harness's own content ids of the directories at load time (not from hashes): skipped ⇔ unchanged since the sum was recorded, failed runs keep the sum, three runs converge",
+			Rule: "histories of 4–10 steps over 2–3 packages from {edit, edit leaving a type error behind, add, delete a file, create / retarget a symbolic link to a source file kept outside the package directory, edit the file behind the link, delete a generated file, delete / corrupt gengo.sum, run, run with Force, run failing in p, run on entrypoint p without All, run whose context the caller cancels while p is being generated} followed by three plain runs, on one persistent real module; oracle: ground truth from the harness's own content ids of the directories at load time (not from hashes): skipped ⇔ unchanged since the sum was recorded, failed runs keep the sum, three runs converge",
 		},
 	}})
 }
